@@ -286,6 +286,56 @@ def m_content_ref_de_new(e,run,a,f): return Agg('ContentRefDeserializer',[a[0]])
 def m_content_deserialize(e,run,a,f):
     v,chan=de_parts(e,a[-1]); return ok(Opaque('Content',{'v':v,'chan':chan}))
 
+# ---- serde_json's TEXT layer: a JSON text in a byte buffer (bytes may be symbolic) -> Value tree
+def text_to_doc(run,bs):
+    """model of serde_json's tokenizer over a byte buffer (RFC 8259 with insignificant whitespace, recursion limit 128; the reader
+    is oracles/json_parse.py, every decision on a symbolic byte forks or is forced).  Returns (Value, channel) or raises DeFail.
+    Bytes above 0x7f that are symbolic are taken to form valid UTF-8 (they come out of `String`s); concrete ones are checked."""
+    from oracles import json_parse as jp
+    conc=[x for x in bs if isinstance(x,int)]
+    info={}
+    r=jp.parse(run,list(bs),'serde',info)
+    if r[0]!='ok': raise DeFail('JSON text: '+str(r[1]))
+    def strv(b):
+        if all(isinstance(x,int) for x in b):
+            try: bytes(b).decode()
+            except UnicodeDecodeError: raise DeFail('invalid unicode code point')
+        return StringO(list(b))
+    def conv(n):
+        k=n[0]
+        if k=='null': return jnull()
+        if k=='bool': return jbool(Bool(n[1]))
+        if k=='float': return jnum('Float',Opaque('f64'))
+        if k=='str': return jstr(strv(n[1]))
+        if k=='arr': return jarr([conv(x) for x in n[1]])
+        if k=='obj':
+            # serde_json::Value keeps the LAST of two members with one key; members in key order (callers that need the document
+            # order use the member list as written: the list below is in document order and is what the visitors see)
+            return jobj([(strv(kb),conv(x)) for kb,x in n[1]])
+        if k=='int':
+            neg,ds=n[1],n[2]
+            if all(isinstance(d,int) for d in ds):
+                v=int(bytes(ds).decode())
+                if neg: return jnum('NegInt',Int(64,True,(-v)&((1<<64)-1))) if 0<v<=(1<<63) else jnum('Float',Opaque('f64'))      # "-0" is the float -0.0
+                return jnum('PosInt',Int(64,False,v)) if v<(1<<64) else jnum('Float',Opaque('f64'))
+            if len(ds)>18: raise Unsupported('symbolic number text of %d digits'%len(ds))
+            acc=z3.BitVecVal(0,64)
+            for d in ds: acc=acc*10+(z3.BitVecVal(d-0x30,64) if isinstance(d,int) else z3.ZeroExt(56,d-0x30))
+            acc=z3.simplify(acc)
+            if neg:
+                if run.branch_bool(Bool(acc==0),'json.negzero'): return jnum('Float',Opaque('f64'))
+                return jnum('NegInt',Int(64,True,z3.simplify(0-acc)))
+            return jnum('PosInt',Int(64,False,acc))
+        raise Unsupported('json node '+str(k))
+    return conv(r[1]),('escaped' if info.get('escapes') else 'borrowed')
+def bytes_of_arg(x):
+    d=deref(x)
+    for _ in range(3):
+        if isinstance(d,Ref): d=deref(d)
+    if isinstance(d,(Str,StringO)): return list(d.b)
+    if isinstance(d,VecO) and all(isinstance(deref(i),Int) for i in d.items): return [deref(i).v for i in d.items]
+    return None
+
 # ---- public entry points of serde_json
 def entry(chan):
     def m(e,run,a,f):
@@ -302,7 +352,12 @@ def entry(chan):
             v=src.p['v']; ch=src.p['chan'] if chan is None else chan
             # serde_json's from_str / from_slice / from_reader call Deserializer::end(): anything but whitespace after the value is an error
             if src.p.get('trailing'): return err(derror('trailing characters'))
-        else: raise Unsupported('serde_json::'+meth+' needs a JsonDoc ghost document or a Value')
+        else:
+            bs=bytes_of_arg(a[0])
+            if bs is None or is_tainted(src): raise Unsupported('serde_json::'+meth+' needs a JsonDoc ghost document, a Value or a byte buffer with real content')
+            try: v,ch0=text_to_doc(run,bs)
+            except DeFail as d: return err(derror(d.msg))
+            ch=ch0 if chan is None else chan
         try: return ok(de_type(e,run,ty,v,ch))
         except DeFail as d: return err(d.msg if isinstance(d.msg,V) else derror(d.msg))
     return m
